@@ -123,7 +123,9 @@ func runC13(rc *sim.RunCtx) {
 	}
 	uni = append(uni, slot{P(E("sys"), E("hostname")), []string{"h1", "h2", "h3"}}, slot{P(E("sys"), E("ext"), E("note")), []string{"n1", "n2"}}, slot{P(E("sys"), E("extleaf")), []string{"x1", "x2"}},
 		slot{P(E("sys"), E("tags")), []string{"t1", "t1,t2"}}, slot{P(E("st"), E("counter")), []string{"1", "2", "3"}}, slot{P(E("st"), E("oper")), []string{"up", "down"}}, slot{P(E("sys"), E("uptime")), []string{"10", "20"}})
-	delTargets := []world.Path{P(E("k1", "name", "a")), P(E("k1", "name", "ab")), P(E("k1", "name", "b")), P(E("k1x", "name", "a")), P(E("sys"), E("ext")), P(E("sys"), E("hostname")), P(E("k1", "name", "a"), E("val")), P(E("sys"), E("extleaf"))}
+	delTargets := []world.Path{P(E("k1", "name", "a")), P(E("k1", "name", "ab")), P(E("k1", "name", "b")), P(E("k1x", "name", "a")), P(E("sys"), E("ext")), P(E("sys"), E("hostname")), P(E("k1", "name", "a"), E("val")), P(E("sys"), E("extleaf")),
+		// state paths: one notification may delete config and state paths together (each goes to its own store)
+		P(E("st"), E("counter")), P(E("st"), E("oper")), P(E("sys"), E("uptime"))}
 	// ---- generate the script ----
 	var script []syncMsg
 	nmsg := 4 + t.Choose(10)
@@ -144,7 +146,18 @@ func runC13(rc *sim.RunCtx) {
 		default:
 			m := syncMsg{kind: "notif"}
 			if t.Bool(1, 4) {
-				m.dels = append(m.dels, delTargets[t.Choose(len(delTargets))])
+				nd := 1 + t.Weighted([]int{4, 2, 1})
+				seenD := map[string]bool{}
+				for j := 0; j < nd; j++ {
+					d := delTargets[t.Choose(len(delTargets))]
+					if !seenD[d.String()] {
+						seenD[d.String()] = true
+						m.dels = append(m.dels, d)
+					}
+				}
+				if len(m.dels) > 1 {
+					rc.Probe("multi-delete-notification")
+				}
 			}
 			nu := t.Choose(3)
 			if len(m.dels) == 0 && nu == 0 {
